@@ -80,6 +80,10 @@ def run(ctx, ncases=None):
     if os.path.isdir(corpus_dir):
         for f in sorted(os.listdir(corpus_dir)):
             cases.append(json.load(open(os.path.join(corpus_dir, f))))
+    # a copied module: the same function text under the same name on the same lines of two files, both registered (function by function and
+    # through add_module, the way `kernprof -p` / `%lprun -m` register) — each copy reports its own executions
+    import c04
+    cases += [c04.same_name_twins_case(False, 3), c04.same_name_twins_case(True, 5)]
     ncorpus = len(cases)
     for i in range(n):
         cases.append(make_case(ctx.rng.fork('case%d' % i)))
